@@ -216,6 +216,46 @@ class Interp:
                     self.ambiguous = True
                 return [alt if self.mul_mode else out]
             return [out]
+        if code == "TRANSPOSE_CONV":
+            # inputs: output_shape, weights OHWI, input, [bias]
+            it, wt = T[ins[2]], T[ins[1]]
+            if it["dtype"] not in ("int8", "uint8"):
+                raise Unsupported("TRANSPOSE_CONV on %s" % it["dtype"])
+            x = self.get(values, ins[2]).astype(I64)
+            w = self.get(values, ins[1]).astype(I64)
+            b = self.get(values, ins[3]) if len(ins) > 3 and ins[3] >= 0 else None
+            si, zi = qparams(it)
+            sw, zw = qparams(wt)
+            so, zo = qparams(ot)
+            x = x - int(zi[0])
+            w = w - (int(zw[0]) if len(zw) == 1 else zw.reshape((-1, 1, 1, 1)))
+            n, h, wd, c = x.shape
+            oc, kh, kw, _ = w.shape
+            sh, swd = opts.get("StrideH", 1), opts.get("StrideW", 1)
+            _, oh, ow, _ = ot["shape"]
+            if opts.get("Padding", 0) == 0:  # SAME: tflite ComputePaddingHeightWidth on the *output* size
+                pt = max((h - 1) * sh + kh - oh, 0) // 2
+                pl = max((wd - 1) * swd + kw - ow, 0) // 2
+            else:
+                pt = pl = 0
+            acc = np.zeros((n, oh, ow, oc), I64)
+            for ky in range(kh):
+                for kx in range(kw):
+                    contrib = x @ w[:, ky, kx, :].T  # [n, h, wd, oc]
+                    for y in range(h):
+                        oy = y * sh + ky - pt
+                        if oy < 0 or oy >= oh:
+                            continue
+                        ox = np.arange(wd) * swd + kx - pl
+                        ok = (ox >= 0) & (ox < ow)
+                        acc[:, oy, ox[ok], :] += contrib[:, y, ok, :]
+            if b is not None:
+                acc += b.astype(I64)
+            m, e = conv_multipliers(si[0], sw, so[0], it["dtype"] == "uint8")
+            lo, hi = dtype_range(ot["dtype"])
+            if len(m) == 1:
+                m, e = m[0], e[0]
+            return [requant(acc, m, e, zo[0], lo, hi)]
         if code in ("MAX_POOL_2D", "AVERAGE_POOL_2D"):
             it = T[ins[0]]
             x = self.get(values, ins[0]).astype(I64)
